@@ -715,6 +715,17 @@ impl<R: DdsRuntime> DcpsParticipantFactory<R> {
                 ),
                 Err(e) => reply_sender.send(Err(e)),
             },
+            DcpsMail::Writer(WriterServiceMail::GetOfferedIncompatibleQosStatus {
+                participant_handle,
+                publisher_handle,
+                data_writer_handle,
+                reply_sender,
+            }) => match self.find_participant(&participant_handle) {
+                Ok(p) => reply_sender.send(
+                    p.get_offered_incompatible_qos_status(&publisher_handle, &data_writer_handle),
+                ),
+                Err(e) => reply_sender.send(Err(e)),
+            },
             DcpsMail::Writer(WriterServiceMail::EnableDataWriter {
                 participant_handle,
                 publisher_handle,
@@ -995,6 +1006,41 @@ impl<R: DdsRuntime> DcpsParticipantFactory<R> {
                 Ok(p) => reply_sender.send(
                     p.get_subscription_matched_status(&subscriber_handle, &data_reader_handle),
                 ),
+                Err(e) => reply_sender.send(Err(e)),
+            },
+            DcpsMail::Reader(ReaderServiceMail::GetRequestedDeadlineMissedStatus {
+                participant_handle,
+                subscriber_handle,
+                data_reader_handle,
+                reply_sender,
+            }) => match self.find_participant(&participant_handle) {
+                Ok(p) => reply_sender.send(
+                    p.get_requested_deadline_missed_status(&subscriber_handle, &data_reader_handle),
+                ),
+                Err(e) => reply_sender.send(Err(e)),
+            },
+            DcpsMail::Reader(ReaderServiceMail::GetRequestedIncompatibleQosStatus {
+                participant_handle,
+                subscriber_handle,
+                data_reader_handle,
+                reply_sender,
+            }) => match self.find_participant(&participant_handle) {
+                Ok(p) => reply_sender.send(
+                    p.get_requested_incompatible_qos_status(
+                        &subscriber_handle,
+                        &data_reader_handle,
+                    ),
+                ),
+                Err(e) => reply_sender.send(Err(e)),
+            },
+            DcpsMail::Reader(ReaderServiceMail::GetSampleRejectedStatus {
+                participant_handle,
+                subscriber_handle,
+                data_reader_handle,
+                reply_sender,
+            }) => match self.find_participant(&participant_handle) {
+                Ok(p) => reply_sender
+                    .send(p.get_sample_rejected_status(&subscriber_handle, &data_reader_handle)),
                 Err(e) => reply_sender.send(Err(e)),
             },
             DcpsMail::Reader(ReaderServiceMail::GetMatchedPublicationData {
